@@ -15,6 +15,8 @@ package helper
 //@ loop#0 invariant !closed(t) && old(consumed(f)) <= consumed(f) && consumed(f) <= len(f)
 //@ loop#0 invariant sent(t) - old(sent(t)) == consumed(f) - old(consumed(f))
 //@ loop#0 invariant forall k :: 0 <= k && k < consumed(f)-old(consumed(f)) ==> t[old(sent(t))+k] == f[old(consumed(f))+k]
+//@ ensures[C04] forall k :: 0 <= k && k < len(f)-old(consumed(f)) ==> hor(t, old(sent(t))+k) <= hor(f, old(consumed(f))+k)
+//@ loop#0 invariant forall k :: 0 <= k && k < consumed(f)-old(consumed(f)) ==> hor(t, old(sent(t))+k) <= hor(f, old(consumed(f))+k)
 
 //@ func Drain
 //@ ensures[C16,C03] consumed(c) == len(c)
@@ -26,6 +28,7 @@ package helper
 //@ ensures[C16,C01] forall k :: 0 <= k && k < len(result) ==> result[k] == c[k+count]
 //@ ensures[C16,C03] consumed(c) == len(c) && closed(result)
 //@ loop#0 invariant 0 <= i && i <= count && consumed(c) == i && sent(result) == 0 && !closed(result)
+//@ ensures[C04] forall k :: 0 <= k && k < len(result) ==> hor(result, k) <= hor(c, k+count)
 
 //@ func Shift
 //@ requires count >= 0 && consumed(c) == 0
@@ -35,6 +38,8 @@ package helper
 //@ ensures[C16,C03] consumed(c) == len(c) && closed(result)
 //@ loop#0 invariant 0 <= i && i <= count && sent(result) == i && consumed(c) == 0 && !closed(result)
 //@ loop#0 invariant forall k :: 0 <= k && k < i ==> result[k] == fill
+//@ ensures[C04] forall k :: 0 <= k && k < len(result) ==> hor(result, k) <= hor(c, k-count)
+//@ loop#0 invariant forall k :: 0 <= k && k < i ==> hor(result, k) <= 0 - 1
 
 //@ func Head
 //@ requires count >= 0
@@ -46,6 +51,8 @@ package helper
 //@ loop#0 invariant 0 <= i && i <= count && consumed(c) == old(consumed(c)) + i && sent(result) == i && !closed(result)
 //@ loop#0 invariant forall k :: 0 <= k && k < i ==> result[k] == c[old(consumed(c))+k]
 //@ loop#0 invariant forall j :: 0 <= j && j <= i ==> psum(result, j) == psum(c, old(consumed(c)) + j) - psum(c, old(consumed(c)))
+//@ ensures[C04] forall k :: 0 <= k && k < len(result) ==> hor(result, k) <= hor(c, old(consumed(c))+k)
+//@ loop#0 invariant forall k :: 0 <= k && k < i ==> hor(result, k) <= hor(c, old(consumed(c))+k)
 
 //@ func First
 //@ requires count >= 0 && consumed(c) == 0
@@ -54,12 +61,15 @@ package helper
 //@ ensures[C16,C03] consumed(c) == len(c) && closed(result)
 //@ loop#0 invariant 0 <= i && i <= count && consumed(c) == i && sent(result) == i && !closed(result)
 //@ loop#0 invariant forall k :: 0 <= k && k < i ==> result[k] == c[k]
+//@ ensures[C04] forall k :: 0 <= k && k < len(result) ==> hor(result, k) <= hor(c, k)
+//@ loop#0 invariant forall k :: 0 <= k && k < i ==> hor(result, k) <= hor(c, k)
 
 //@ func Buffered
 //@ requires size >= 0 && consumed(c) == 0
 //@ ensures[C16,C02] len(result) == len(c)
 //@ ensures[C16,C01] forall k :: 0 <= k && k < len(c) ==> result[k] == c[k]
 //@ ensures[C16,C03] consumed(c) == len(c) && closed(result)
+//@ ensures[C04] forall k :: 0 <= k && k < len(result) ==> hor(result, k) <= hor(c, k)
 
 //@ func Waitable
 //@ requires consumed(c) == 0
@@ -68,6 +78,8 @@ package helper
 //@ ensures[C16,C03] consumed(c) == len(c) && closed(result)
 //@ loop#0 invariant consumed(c) == sent(result) && !closed(result)
 //@ loop#0 invariant forall k :: 0 <= k && k < sent(result) ==> result[k] == c[k]
+//@ ensures[C04] forall k :: 0 <= k && k < len(result) ==> hor(result, k) <= hor(c, k)
+//@ loop#0 invariant forall k :: 0 <= k && k < sent(result) ==> hor(result, k) <= hor(c, k)
 
 //@ func Map
 //@ requires consumed(c) == 0 && f.ncalls == 0
@@ -76,6 +88,8 @@ package helper
 //@ ensures[C16,C03] consumed(c) == len(c) && closed(result)
 //@ loop#0 invariant consumed(c) == sent(mc) && f.ncalls == sent(mc) && !closed(mc)
 //@ loop#0 invariant forall k :: 0 <= k && k < sent(mc) ==> f.arg0(k) == c[k] && mc[k] == f.ret(k)
+//@ ensures[C04] forall k :: 0 <= k && k < len(result) ==> hor(result, k) <= hor(c, k)
+//@ loop#0 invariant forall k :: 0 <= k && k < sent(mc) ==> hor(mc, k) <= hor(c, k)
 
 //@ func Apply
 //@ requires consumed(c) == 0 && f.ncalls == 0
@@ -84,6 +98,8 @@ package helper
 //@ ensures[C16,C03] consumed(c) == len(c) && closed(result)
 //@ loop#0 invariant consumed(c) == sent(ac) && f.ncalls == sent(ac) && !closed(ac)
 //@ loop#0 invariant forall k :: 0 <= k && k < sent(ac) ==> f.arg0(k) == c[k] && ac[k] == f.ret(k)
+//@ ensures[C04] forall k :: 0 <= k && k < len(result) ==> hor(result, k) <= hor(c, k)
+//@ loop#0 invariant forall k :: 0 <= k && k < sent(ac) ==> hor(ac, k) <= hor(c, k)
 
 //@ func Operate
 //@ requires consumed(ac) == 0 && consumed(bc) == 0 && o.ncalls == 0
@@ -92,6 +108,8 @@ package helper
 //@ ensures[C16,C03] consumed(ac) == len(ac) && consumed(bc) == len(bc) && closed(result)
 //@ loop#0 invariant consumed(ac) == sent(oc) && consumed(bc) == sent(oc) && o.ncalls == sent(oc) && !closed(oc)
 //@ loop#0 invariant forall k :: 0 <= k && k < sent(oc) ==> o.arg0(k) == ac[k] && o.arg1(k) == bc[k] && oc[k] == o.ret(k)
+//@ ensures[C04] forall k :: 0 <= k && k < len(result) ==> hor(result, k) <= max(hor(ac, k), hor(bc, k))
+//@ loop#0 invariant forall k :: 0 <= k && k < sent(oc) ==> hor(oc, k) <= max(hor(ac, k), hor(bc, k))
 
 //@ func Operate3
 //@ requires consumed(ac) == 0 && consumed(bc) == 0 && consumed(cc) == 0 && o.ncalls == 0
@@ -100,6 +118,8 @@ package helper
 //@ ensures[C16,C03] consumed(ac) == len(ac) && consumed(bc) == len(bc) && consumed(cc) == len(cc) && closed(result)
 //@ loop#0 invariant consumed(ac) == sent(rc) && consumed(bc) == sent(rc) && consumed(cc) == sent(rc) && o.ncalls == sent(rc) && !closed(rc)
 //@ loop#0 invariant forall k :: 0 <= k && k < sent(rc) ==> o.arg0(k) == ac[k] && o.arg1(k) == bc[k] && o.arg2(k) == cc[k] && rc[k] == o.ret(k)
+//@ ensures[C04] forall k :: 0 <= k && k < len(result) ==> hor(result, k) <= max(hor(ac, k), max(hor(bc, k), hor(cc, k)))
+//@ loop#0 invariant forall k :: 0 <= k && k < sent(rc) ==> hor(rc, k) <= max(hor(ac, k), max(hor(bc, k), hor(cc, k)))
 
 // ---- Ring: bounded FIFO. Abstract view: rview(r,0..rsize(r)-1), oldest first (C17, "guarantees": proved
 // on the bodies, not exported to callers).  Callers get the quantifier-friendly representation-level "ensures".
@@ -160,6 +180,8 @@ package helper
 //@ loop#0 invariant consumed(c) == sent(mc) && f.ncalls == sent(mc) && !closed(mc)
 //@ loop#0 invariant previous == (sent(mc) == 0 ? old(previous) : f.ret(sent(mc)-1))
 //@ loop#0 invariant forall k :: 0 <= k && k < sent(mc) ==> f.arg1(k) == c[k] && mc[k] == f.ret(k) && f.arg0(k) == (k == 0 ? old(previous) : f.ret(k-1))
+//@ ensures[C04] forall k :: 0 <= k && k < len(result) ==> hor(result, k) <= hor(c, k)
+//@ loop#0 invariant forall k :: 0 <= k && k < sent(mc) ==> hor(mc, k) <= hor(c, k)
 
 //@ func Count
 //@ requires consumed(other) == 0
@@ -189,6 +211,8 @@ package helper
 //@ ensures[C16,C03] consumed(c) == len(c) && closed(result)
 //@ loop#0 invariant p.ncalls == consumed(c) && sent(fc) == fcount(p, consumed(c)) && !closed(fc)
 //@ loop#0 invariant forall k :: 0 <= k && k < consumed(c) ==> p.arg0(k) == c[k] && (p.ret(k) ==> fc[fcount(p,k)] == c[k])
+//@ ensures[C04] forall k :: 0 <= k && k < len(c) ==> (p.ret(k) ==> hor(result, fcount(p,k)) <= hor(c, k))
+//@ loop#0 invariant forall k :: 0 <= k && k < consumed(c) ==> (p.ret(k) ==> hor(fc, fcount(p,k)) <= hor(c, k))
 
 //@ func Last
 //@ requires count >= 1 && consumed(c) == 0
@@ -207,78 +231,91 @@ package helper
 //@ ensures[C16,C02] len(result) == min(len(ac), len(bc))
 //@ ensures[C16,C01] forall k :: 0 <= k && k < len(result) ==> result[k] == ac[k] + bc[k]
 //@ ensures[C16,C03] consumed(ac) == len(ac) && consumed(bc) == len(bc) && closed(result)
+//@ ensures[C04] forall k :: 0 <= k && k < len(result) ==> hor(result, k) <= max(hor(ac, k), hor(bc, k))
 
 //@ func Subtract
 //@ requires consumed(ac) == 0 && consumed(bc) == 0
 //@ ensures[C16,C02] len(result) == min(len(ac), len(bc))
 //@ ensures[C16,C01] forall k :: 0 <= k && k < len(result) ==> result[k] == ac[k] - bc[k]
 //@ ensures[C16,C03] consumed(ac) == len(ac) && consumed(bc) == len(bc) && closed(result)
+//@ ensures[C04] forall k :: 0 <= k && k < len(result) ==> hor(result, k) <= max(hor(ac, k), hor(bc, k))
 
 //@ func Multiply
 //@ requires consumed(ac) == 0 && consumed(bc) == 0
 //@ ensures[C16,C02] len(result) == min(len(ac), len(bc))
 //@ ensures[C16,C01] forall k :: 0 <= k && k < len(result) ==> result[k] == ac[k] * bc[k]
 //@ ensures[C16,C03] consumed(ac) == len(ac) && consumed(bc) == len(bc) && closed(result)
+//@ ensures[C04] forall k :: 0 <= k && k < len(result) ==> hor(result, k) <= max(hor(ac, k), hor(bc, k))
 
 //@ func Divide
 //@ requires consumed(ac) == 0 && consumed(bc) == 0
 //@ ensures[C16,C02] len(result) == min(len(ac), len(bc))
 //@ ensures[C16,C01] forall k :: 0 <= k && k < len(result) ==> result[k] == ac[k] / bc[k]
 //@ ensures[C16,C03] consumed(ac) == len(ac) && consumed(bc) == len(bc) && closed(result)
+//@ ensures[C04] forall k :: 0 <= k && k < len(result) ==> hor(result, k) <= max(hor(ac, k), hor(bc, k))
 
 //@ func Abs
 //@ requires consumed(c) == 0
 //@ ensures[C16,C02] len(result) == len(c)
 //@ ensures[C16,C01] forall k :: 0 <= k && k < len(result) ==> result[k] == abs(c[k])
 //@ ensures[C16,C03] consumed(c) == len(c) && closed(result)
+//@ ensures[C04] forall k :: 0 <= k && k < len(result) ==> hor(result, k) <= hor(c, k)
 
 //@ func DecrementBy
 //@ requires consumed(c) == 0
 //@ ensures[C16,C02] len(result) == len(c)
 //@ ensures[C16,C01] forall k :: 0 <= k && k < len(result) ==> result[k] == c[k] - d
 //@ ensures[C16,C03] consumed(c) == len(c) && closed(result)
+//@ ensures[C04] forall k :: 0 <= k && k < len(result) ==> hor(result, k) <= hor(c, k)
 
 //@ func IncrementBy
 //@ requires consumed(c) == 0
 //@ ensures[C16,C02] len(result) == len(c)
 //@ ensures[C16,C01] forall k :: 0 <= k && k < len(result) ==> result[k] == c[k] + i
 //@ ensures[C16,C03] consumed(c) == len(c) && closed(result)
+//@ ensures[C04] forall k :: 0 <= k && k < len(result) ==> hor(result, k) <= hor(c, k)
 
 //@ func MultiplyBy
 //@ requires consumed(c) == 0
 //@ ensures[C16,C02] len(result) == len(c)
 //@ ensures[C16,C01] forall k :: 0 <= k && k < len(result) ==> result[k] == c[k] * m
 //@ ensures[C16,C03] consumed(c) == len(c) && closed(result)
+//@ ensures[C04] forall k :: 0 <= k && k < len(result) ==> hor(result, k) <= hor(c, k)
 
 //@ func DivideBy
 //@ requires consumed(c) == 0
 //@ ensures[C16,C02] len(result) == len(c)
 //@ ensures[C16,C01] forall k :: 0 <= k && k < len(result) ==> result[k] == c[k] / d
 //@ ensures[C16,C03] consumed(c) == len(c) && closed(result)
+//@ ensures[C04] forall k :: 0 <= k && k < len(result) ==> hor(result, k) <= hor(c, k)
 
 //@ func KeepNegatives
 //@ requires consumed(c) == 0
 //@ ensures[C16,C02] len(result) == len(c)
 //@ ensures[C16,C01] forall k :: 0 <= k && k < len(result) ==> result[k] == (c[k] < 0 ? c[k] : 0)
 //@ ensures[C16,C03] consumed(c) == len(c) && closed(result)
+//@ ensures[C04] forall k :: 0 <= k && k < len(result) ==> hor(result, k) <= hor(c, k)
 
 //@ func KeepPositives
 //@ requires consumed(c) == 0
 //@ ensures[C16,C02] len(result) == len(c)
 //@ ensures[C16,C01] forall k :: 0 <= k && k < len(result) ==> result[k] == (c[k] > 0 ? c[k] : 0)
 //@ ensures[C16,C03] consumed(c) == len(c) && closed(result)
+//@ ensures[C04] forall k :: 0 <= k && k < len(result) ==> hor(result, k) <= hor(c, k)
 
 //@ func Sign
 //@ requires consumed(c) == 0
 //@ ensures[C16,C02] len(result) == len(c)
 //@ ensures[C16,C01] forall k :: 0 <= k && k < len(result) ==> result[k] == (c[k] > 0 ? 1 : (c[k] < 0 ? 0 - 1 : 0))
 //@ ensures[C16,C03] consumed(c) == len(c) && closed(result)
+//@ ensures[C04] forall k :: 0 <= k && k < len(result) ==> hor(result, k) <= hor(c, k)
 
 //@ func Sqrt
 //@ requires consumed(c) == 0
 //@ ensures[C16,C02] len(result) == len(c)
 //@ ensures[C16,C01] forall k :: 0 <= k && k < len(result) ==> result[k] == sqrt(c[k])
 //@ ensures[C16,C03] consumed(c) == len(c) && closed(result)
+//@ ensures[C04] forall k :: 0 <= k && k < len(result) ==> hor(result, k) <= hor(c, k)
 
 //@ func Duplicate
 //@ trusted symbolic slice of channels with defer-in-loop: contract assumed (DESIGN 9), checked at runtime in the thorough tier
@@ -287,30 +324,35 @@ package helper
 //@ ensures[C16] forall i :: 0 <= i && i < count ==> len(result[i]) == len(input) && closed(result[i])
 //@ ensures[C16] forall i :: 0 <= i && i < count ==> (forall k :: 0 <= k && k < len(input) ==> result[i][k] == input[k])
 //@ ensures[C16,C03] consumed(input) == len(input)
+//@ ensures[C04] forall i :: 0 <= i && i < count ==> (forall k :: 0 <= k && k < len(input) ==> hor(result[i], k) <= hor(input, k))
 
 //@ func Change
 //@ requires before >= 0 && consumed(c) == 0
 //@ ensures[C16,C02] len(result) == max(0, len(c) - before)
 //@ ensures[C16,C01] forall k :: 0 <= k && k < len(result) ==> result[k] == c[k+before] - c[k]
 //@ ensures[C16,C03] consumed(c) == len(c) && closed(result)
+//@ ensures[C04] forall k :: 0 <= k && k < len(result) ==> hor(result, k) <= hor(c, k+before)
 
 //@ func ChangeRatio
 //@ requires before >= 0 && consumed(c) == 0
 //@ ensures[C16,C02] len(result) == max(0, len(c) - before)
 //@ ensures[C16,C01] forall k :: 0 <= k && k < len(result) ==> result[k] == (c[k+before] - c[k]) / c[k]
 //@ ensures[C16,C03] consumed(c) == len(c) && closed(result)
+//@ ensures[C04] forall k :: 0 <= k && k < len(result) ==> hor(result, k) <= hor(c, k+before)
 
 //@ func ChangePercent
 //@ requires before >= 0 && consumed(c) == 0
 //@ ensures[C16,C02] len(result) == max(0, len(c) - before)
 //@ ensures[C16,C01] forall k :: 0 <= k && k < len(result) ==> result[k] == (c[k+before] - c[k]) / c[k] * 100
 //@ ensures[C16,C03] consumed(c) == len(c) && closed(result)
+//@ ensures[C04] forall k :: 0 <= k && k < len(result) ==> hor(result, k) <= hor(c, k+before)
 
 //@ func SyncPeriod
 //@ requires consumed(c) == 0
 //@ ensures[C16,C02] len(result) == max(0, len(c) - max(0, commonPeriod - period))
 //@ ensures[C16,C01] forall k :: 0 <= k && k < len(result) ==> result[k] == c[k + max(0, commonPeriod - period)]
 //@ ensures[C16,C03] closed(result) && (commonPeriod - period > 0 ==> consumed(c) == len(c))
+//@ ensures[C04] forall k :: 0 <= k && k < len(result) ==> hor(result, k) <= hor(c, k + max(0, commonPeriod - period))
 
 // since(c,k): number of positions since the value last changed (run-length counter)
 //@ func Since
@@ -321,6 +363,7 @@ package helper
 //@ lit#0 invariant calls == 0 ==> first
 //@ lit#0 invariant calls > 0 ==> !first && last == c[calls-1] && count == since(c, calls-1)
 //@ lit#0 yields since(c, calls)
+//@ ensures[C04] forall k :: 0 <= k && k < len(result) ==> hor(result, k) <= hor(c, k)
 
 //@ func Seq
 //@ requires increment > 0
